@@ -775,3 +775,78 @@ Example ex_concurrent :
   [(0, EvTick); (1, EvTick); (1, EvWriteStart 0); (0, EvWriteStart 0); (1, EvTick); (1, EvWriteDone 0);
    (0, EvWriteDone 0); (0, EvWriteStart 1); (0, EvWriteDone 1); (1, EvHttpStatus 204); (0, EvSmtpReply code_250)].
 Proof. reflexivity. Qed.
+
+(* ------------------------------------------------ the SMTP session layer *)
+Definition sess_rel (s : sstate) (w : view) : Prop :=
+  s_mail s = fst w /\ (s_mail s = true -> s_env s = Some (snd w)).
+
+Ltac no_handoff :=
+  let l := fresh "l" in let Hl := fresh "Hl" in
+  intros l Hl; cbn in Hl;
+  repeat (destruct Hl as [Hl|Hl]; [discriminate|]); contradiction.
+
+Lemma sstep_inv : forall s w c s' o, sess_rel s w -> sstep s c = (s', o) ->
+  sess_rel s' (view_step w c (replies_of o)) /\
+  (forall l, In (OHandoff l) o -> l = snd w).
+Proof.
+  intros s [wo wa] c s' o [Rm Re] H. cbn [fst snd] in *.
+  assert (Keep : sess_rel s (wo, wa)) by (split; assumption).
+  assert (Closed : forall h, sess_rel (mkS h false false None) (false, []))
+    by (intros h; split; cbn; [reflexivity|discriminate]).
+  destruct c as [v|v| |v|a v|v hv q|]; cbn [sstep] in H.
+  - destruct (v =? 250) eqn:E; injection H as <- <-; cbn; rewrite E; (split; [auto|no_handoff]).
+  - destruct (v =? 250) eqn:E; injection H as <- <-; cbn; rewrite E; (split; [auto|no_handoff]).
+  - injection H as <- <-. cbn. split; [auto|no_handoff].
+  - destruct (negb (s_helo s)); [injection H as <- <-; cbn; split; [auto|no_handoff]|].
+    destruct (s_mail s) eqn:M; [injection H as <- <-; cbn; split; [auto|no_handoff]|].
+    destruct (v =? 250) eqn:E; injection H as <- <-; cbn; rewrite E; (split; [|no_handoff]).
+    + split; cbn; auto.
+    + exact Keep.
+  - destruct (s_mail s) eqn:M; cbn [negb] in H;
+      [|injection H as <- <-; cbn; split; [auto|no_handoff]].
+    destruct (v =? 250) eqn:E; injection H as <- <-; cbn; rewrite E; (split; [|no_handoff]).
+    + split; cbn; [exact Rm|]. intros _. rewrite (Re eq_refl). reflexivity.
+    + exact Keep.
+  - destruct (s_mail s) eqn:M; cbn [negb orb] in H;
+      [|injection H as <- <-; cbn; split; [auto|no_handoff]].
+    destruct (negb (s_rcpt s)); [injection H as <- <-; cbn; split; [auto|no_handoff]|].
+    destruct (v =? 354) eqn:E; cbn [negb] in H;
+      [|injection H as <- <-; cbn; rewrite E; split; [auto|no_handoff]].
+    destruct (hv =? 250) eqn:E2; cbn [negb] in H; injection H as <- <-; cbn; rewrite E.
+    + split; [auto|].
+      intros l [X|[X|[X|[]]]]; try discriminate. injection X as <-.
+      rewrite (Re eq_refl). reflexivity.
+    + split; [auto|no_handoff].
+  - injection H as <- <-. cbn. split; [auto|no_handoff].
+Qed.
+
+Lemma handoffs_exact : forall cs s w, sess_rel s w ->
+  forall p, In p (handoffs w (srun s cs)) -> fst p = snd p.
+Proof.
+  induction cs as [|c cs IH]; intros s w R p Hin; [destruct Hin|].
+  cbn [srun] in Hin. destruct (sstep s c) as [s' o] eqn:S. cbn [handoffs] in Hin.
+  destruct (sstep_inv _ _ _ _ _ R S) as (R' & HO).
+  apply in_app_or in Hin. destruct Hin as [Hin|Hin].
+  - apply in_flat_map in Hin. destruct Hin as (x & Hx & Hp).
+    destruct x as [c0|l]; [destruct Hp|]. destruct Hp as [<-|[]]. cbn.
+    symmetry. apply HO. exact Hx.
+  - eapply IH; eauto.
+Qed.
+
+Lemma handoff_envelope_has_accepted_recipients : forall cs accepted envelope,
+  In (accepted, envelope) (handoffs (false, []) (srun s_init cs)) -> envelope = accepted.
+Proof.
+  intros cs a e H.
+  assert (R : sess_rel s_init (false, [])) by (split; [reflexivity|discriminate]).
+  pose proof (handoffs_exact cs s_init (false, []) R _ H) as E. cbn in E. congruence.
+Qed.
+
+(* the C02-6 scenario: two accepted recipients, DATA refused, a third recipient,
+   DATA accepted - the envelope holds all three; then a second transaction *)
+Example ex_session :
+  handoffs (false, [])
+    (srun s_init [SEhlo 250; SMail 250; SRcpt 1 250; SRcpt 2 550; SRcpt 3 250; SData 451 250 250;
+                  SRcpt 4 250; SData 354 250 250; SMail 250; SRcpt 5 250; SRset; SMail 250; SRcpt 6 250;
+                  SData 354 550 250; SMail 250; SRcpt 7 250; SData 354 250 451]) =
+  [([1; 3; 4], [1; 3; 4]); ([7], [7])].
+Proof. reflexivity. Qed.
